@@ -12,10 +12,29 @@ LEVEL_TEXT = ("Repository-specific static rules over the type-checked SSA form o
               "every input and schedule that can drive them. It decides those clauses, not the run-time behaviour: ")
 
 # id -> (decides, note, technique); ids missing here are listed under not_applicable with NA[id]
+TRUST = "Trusted: go/types, go/ssa (x/tools v0.29.0), the Go memory model and the documented semantics of the standard library; lock, field and channel identity is by (type, field), instances are not distinguished; hand-confirmed instance minimums and idiom tables in /verif/checker/rules_*.go. A re-architecture of the anchored mechanism that uses an idiom the rule does not know is reported as undecided (the check fails rather than pass on code it does not understand). "
 CLAIMS = {
  "C02": ("reader hand-off channels are buffered at every make site; waiter registered before the write; the wait prefers a delivered reply over the close notification; reader re-arms the read deadline. Not decided: timing.",
-         "Trusted: go/types, go/ssa, Go channel semantics; channel/field identity by type (instances not distinguished). An unrecognised re-architecture of the hand-off is reported as undecided (fails).",
+         TRUST + "Go channel semantics (a send on a channel with free buffer space never blocks).",
          "SSA value-provenance of channel make sites + dominance / must-pass-through on the CFG"),
+ "C04": ("the cache key builder is injective in (AD, CD, DO, 16 type bits, 16 class bits, name): every input bit is the sole dependency of a header bit, the name is copied verbatim, the buffer is fresh and private; non-empty key only for QR=0/QUERY/one question; one key value for lookup and stores. This is the whole property except the semantics of miekg/dns field accessors.",
+         TRUST + "miekg/dns Msg.IsEdns0 / OPT.Do as documented; Go string map-key equality.",
+         "bit-level dependency abstract interpretation of the key builder (SSA) + guard and provenance rules"),
+ "C09": ("lockset on counters, waiter table, flags and connection sets; admission test inside the critical section; exactly-once release and wait-group accounting on every path of both ReservedExchanger implementations; no double counting of in-flight queries; reserved exchangers consumed exactly once by callers; dial only when nothing admitted; dialing limit <= connection limit. Not decided: run-time maxima over interleavings.",
+         TRUST + "sync.Mutex / sync.WaitGroup semantics.",
+         "must-lockset dataflow + exhaustive CFG path enumeration (event counting, typestate of reserved exchangers)"),
+ "C11": ("lockset on every shard-map access (R for reads, W for writes); bounded insert only via certified edges inside one critical section; per-shard maximum >= 1 for every configured size (interval analysis of the size clamp); expiry guards in Get and the sweep; the cache uses only the locked, bounded map API. Not decided: linearizability of histories.",
+         TRUST + "sync.RWMutex semantics.",
+         "must-lockset dataflow + edge-certified reachability + path-sensitive interval analysis"),
+ "C18": ("scheme->default-port table by resolved constants; provenance of every dialled/resolved address from parseDialAddr(trimmed URL host, dial_addr, default); SNI default; bracket trimmer strips exactly what it tested; helper schemes; parse errors propagate. Not decided: string semantics of net/url and net.SplitHostPort over all inputs.",
+         TRUST + "net/url, net.SplitHostPort, net.JoinHostPort as documented.",
+         "AST table check with type-resolved constants + SSA value-provenance + guard analysis"),
+ "C19": ("writer/reader field agreement with per-field sources; item rebuilt from matching getters; block length within [0,limit] at the allocation (interval analysis); every read/decode error leads to an error return, only io.EOF on a block header tolerated; header verified first; expired entries skipped on both sides. Not decided: round-trip equality of arbitrary messages, robustness of gzip/protobuf/miekg to arbitrary bytes (trusted).",
+         TRUST + "protobuf getters return their field; gzip/protobuf/dns.Msg.Unpack report malformed input as errors.",
+         "writer/reader table agreement over SSA stores and getter calls + interval analysis + error-flow rule"),
+ "C20": ("own answer queued before the sibling-waking close, 'done' only with an answer; gate select before the secondary's Exec; hold select before a standby answer; <=1 send per path and capacity >= workers; caller loop bound / nil skipping / ctx / failure last; workers on copies taken before go with the caller's deadline. Not decided: timing relative to the threshold.",
+         TRUST + "Go channel FIFO and close semantics.",
+         "channel/select structure analysis over SSA (dominance, case-body reachability, path counting)"),
 }
 NA = {}
 
